@@ -170,6 +170,9 @@ func New(o Options) (*Rig, error) {
 	os.MkdirAll("data", 0o755)
 	// files production code looks up relative to the working directory
 	copyFile(filepath.Join(repoRoot(), "teamserver/pkg/handlers/404.html"), "teamserver/pkg/handlers/404.html")
+	if copyFile(filepath.Join(repoRoot(), "payloads/DllLdr.x64.bin"), "payloads/DllLdr.x64.bin") != nil {
+		copyFile("/repo/payloads/DllLdr.x64.bin", "payloads/DllLdr.x64.bin") // scratch copies carry only teamserver/
+	}
 	logger.SetStdOut(io.Discard)
 	gin.SetMode(gin.ReleaseMode)
 
